@@ -103,10 +103,12 @@ public:
 
       if (_time_zone == Timezone::LocalTime)
       {
-        // If localtime is used, we will recalculate every 15 minutes. This approach accounts for
-        // DST changes and simplifies handling transitions around midnight. Recalculating every 15
-        // minutes ensures coverage for all possible timezones without additional computations.
-        _next_recalculation_timestamp = _next_quarter_hour_timestamp(timestamp);
+        // If localtime is used, we will recalculate every minute. This approach accounts for
+        // DST changes and simplifies handling transitions around midnight. UTC offset changes
+        // are not always on a quarter hour (e.g. America/St_Johns and Asia/Gaza have switched at
+        // 00:01 local time), but they are on a whole minute, so recalculating every minute
+        // ensures coverage for all timezones without additional computations.
+        _next_recalculation_timestamp = _next_minute_timestamp(timestamp);
       }
       else if (_time_zone == Timezone::GmtTime)
       {
@@ -395,6 +397,12 @@ protected:
   {
     time_t const next_quarter_hour_ts = _nearest_quarter_hour_timestamp(timestamp) + 900;
     return next_quarter_hour_ts;
+  }
+
+  /***/
+  QUILL_NODISCARD static time_t _next_minute_timestamp(time_t timestamp) noexcept
+  {
+    return ((timestamp / 60) * 60) + 60;
   }
 
   /***/
